@@ -151,7 +151,7 @@ def harness_obj(name, src, flavor, lang_flags, bdir):
             cxx = src.endswith(".cc")
             cmd = ["clang++" if cxx else "clang"] + (["-std=gnu++17"] if cxx else []) + \
                 "-g -O1 -fno-omit-frame-pointer -DJWT_STATIC_DEFINE".split() + HARNESS_SAN[flavor].split() + \
-                lang_flags.split() + [f"-I{REPO}/include", f"-I{bdir}", f"-I{VERIF}/vlib", "-c", src, "-o", obj + ".tmp"]
+                lang_flags.split() + [f"-I{REPO}/include", f"-I{bdir}", f"-I{VERIF}/vlib", f"-I{REPO}/libjwt", "-c", src, "-o", obj + ".tmp"]
             r = sh(cmd, stdout=subprocess.PIPE, stderr=subprocess.STDOUT, text=True)
             if r.returncode:
                 log(r.stdout[-6000:])
